@@ -37,7 +37,8 @@ LEVEL_TEXT = ('Random material lists over all atoms with neutron data are evalua
               'through the direct route for scalar, length-1 and length-n wavelength arguments, and the three SLDs and '
               'the output shapes are compared to 1e-10, also for material objects that were used in earlier calculators '
               'and then scaled, added or extended; only the sampled lists, weights, densities and wavelengths are '
-              'covered.')
+              'covered.'
+              ' Added in rounds 4-7: direct route through the package-level alias by energy, integer weights of billions of formula units, refused call forms before the judged call.')
 LEVEL_NOTE = ('Trusted: numpy; the direct route neutron_sld is the oracle the property names (its own correctness is C03/C04); '
               'Formula arithmetic is used literally for sum_i w_i*material_i and, on a mismatch, re-derived from the '
               'generator\'s multiset to attribute the failure.')
